@@ -318,7 +318,9 @@ Definition gc_server (s : state) (c : server) : state :=
   st_reg s (s_cslot s) (s_sslot s) (s_creg s) (filter (fun x => negb (N.eqb x sv)) (s_sreg s)) (s_idxlog s).
 Definition gc (s : state) : state :=
   let s := fold_left gc_client (s_clients s) s in
-  fold_left gc_server (s_servers s) s.
+  let s := fold_left gc_server (s_servers s) s in
+  (* a connection that neither side holds any more is removed (its shared memory is unlinked) *)
+  st_conns s (filter (fun k => view_on (k_cv k) || view_on (k_svw k)) (s_conns s)).
 
 (* --- sender side: reclaim, allocate, try_send ------------------------------------------------ *)
 (* sender.rs retrieve_returned_chunks on the client's request sender *)
@@ -881,19 +883,18 @@ Definition last_recv_foreign (s : state) : bool :=
   end.
 
 (* peers whose polling order the driver has to choose *)
+Fixpoint nodupN (l : list N) : list N :=
+  match l with [] => [] | h :: t => if memN h t then nodupN t else h :: nodupN t end.
 Definition client_peers (s : state) (k : N) : list N :=
   match nth_opt (s_pends s) k with
   | None => []
-  | Some p => map k_sv (filter (fun c => N.eqb (k_cl c) (pn_cl p)) (s_conns s)) ++
-              filter (fun sv => match get_conn s (pn_cl p) sv with Some _ => false | None => true end) (s_sreg s)
+  | Some p => nodupN (map k_sv (filter (fun c => N.eqb (k_cl c) (pn_cl p) && view_on (k_cv c)) (s_conns s)) ++ s_sreg s)
   end.
 Definition server_peers (s : state) (j : N) : list N :=
   match slot_inst (s_sslot s) j with
   | None => []
-  | Some sv => map k_cl (filter (fun c => N.eqb (k_sv c) sv) (s_conns s)) ++
-               flat_map (fun r => match r with
-                                  | Some cl => match get_conn s cl sv with Some _ => [] | None => [cl] end
-                                  | None => [] end) (s_creg s)
+  | Some sv => nodupN (map k_cl (filter (fun c => N.eqb (k_sv c) sv && view_on (k_svw c)) (s_conns s)) ++
+                       flat_map (fun r => match r with Some cl => [cl] | None => [] end) (s_creg s))
   end.
 
 (* ---------------------------------------------------------------------------------------- *)
